@@ -916,6 +916,27 @@ def gen_case(rng, kf_global=False):
     return case
 
 
+def gen_to_int_terms(rng, k=3):
+    """string.to_int over prefix x explicit base x sign x leading whitespace: `0x` / `0X` / none with base 16, 0, 8, 10;
+    every isspace byte (incl. \\x0b) in front; a trailing byte that must make the result undefined"""
+    out = []
+    for _ in range(k):
+        ws = rng.choice([b"", b"", b" ", b"\t", b"\n", b"\x0b", b"\x0c", b"\r", b" \x0b "])
+        sign = rng.choice([b"", b"", b"-", b"+"])
+        prefix = rng.choice([b"", b"0x", b"0X", b"0X", b"0"])
+        digits = rng.choice([b"1F", b"1f", b"ff", b"10", b"7", b"077", b"fF0", b"", b"8"])
+        tail = rng.choice([b"", b"", b"", b" ", b"g", b"x"])
+        base = rng.choice([16, 16, 16, 0, 0, 8, 10, 36])
+        lit = ws + sign + prefix + digits + tail
+        v = strtol_py(lit, base)
+        call = "string.to_int(%s, %d)" % (cond.ybytes(lit), base)
+        if v is None or rng.chance(1, 3):
+            out.append("defined %s" % call)
+        else:
+            out.append("%s == %d" % (call, v))
+    return out
+
+
 def entropy_py(b):
     import math
     if not b:
@@ -1143,6 +1164,12 @@ def add_probes(rng, case, mods):
         case["rules"].append({"ns": case["rules"][-1]["ns"], "name": "fp", "global": False, "private": False,
                               "strings": strings, "cond": ("raw", text), "id": len(case["rules"]), "tail": False,
                               "ord_index": sum(1 for x in case["rules"] if not x["global"])})
+    if "string" in mods and rng.chance(1, 3):
+        imports.add("string")
+        for j, text in enumerate(gen_to_int_terms(rng.fork("ti"))):
+            case["rules"].append({"ns": case["rules"][-1]["ns"], "name": "ti%d" % j, "global": False, "private": False,
+                                  "strings": [], "cond": ("raw", text), "id": len(case["rules"]), "tail": False,
+                                  "ord_index": sum(1 for x in case["rules"] if not x["global"])})
     if "hash" in mods and rng.chance(1, 2):
         for j, text in enumerate(gen_hash_chain(rng.fork("hc"), mem)):
             imports.add("hash")
